@@ -15,7 +15,7 @@ EXTENDS Wrappers, FFITypes, TLC, Json
 CONSTANTS NFns, MinArity, MaxArity, Kinds, Shapes, ArgSet, RetSet, OptSet, FixedToks
 
 Reps == { Sc("bool"), Sc("schar"), Sc("ushort"), Sc("int"), Sc("ulong"), Sc("float"), Sc("double"),
-          En("E_s", "c_int"), St("S3"), St("S8m"), St("S16id"), St("S17"), Un("U8"),
+          En("E_s", "c_int"), St("S3"), St("S8m"), St("struct_S12m"), St("S16id"), St("S17"), Un("union_U8"),
           Ptr("pc_char", TRUE, Sc("char")), Ptr("pc_pc_char", TRUE, Ptr("pc_char", TRUE, Sc("char"))),
           Arr("a4_int", FALSE, Sc("int"), 4), Arr("a2x3_int", FALSE, [k |-> "arrin", id |-> "x3_int", of |-> Sc("int"), len |-> 3], 2),
           Fp("cb_i_i", Sc("int"), <<Sc("int")>>), Fp("cb_S8m_ucpf", St("S8m"), <<Sc("uchar"), Ptr("pc_char", TRUE, Sc("char")), Sc("float")>>) }
